@@ -103,6 +103,9 @@ func (fr *frame) lockIntrinsic(v ssa.Value, callee *ssa.Function, args []Val, po
 	case "lock", "rlock":
 		if !fresh {
 			fr.lockRank(key, what, pos)
+			// ghost counter of potentially blocking acquisitions per lock class
+			bk := u.regKey("Blk."+what, "Int")
+			fr.st.set(bk, "(+ "+fr.st.get(u, bk)+" 1)")
 		}
 		// acquiring a lock this goroutine already holds is a self-deadlock
 		fr.safetyCheckAlways("typestate", "acquire "+what+": not already held by this function", pos.Pos(), "(= "+cur+" "+lockFree+")")
@@ -142,6 +145,14 @@ func (fr *frame) safetyCheckAlways(kind, desc string, pos token.Pos, goal string
 func (fr *frame) lockRank(key, what string, pos ssa.Instruction) {
 	u := fr.u
 	levels := u.eng.CS.LockLevels
+	if fr.contract != nil {
+		for _, nb := range fr.contract.NonBlocking {
+			if "Held."+nb == key {
+				u.note("acquisition of %s assumed non-blocking in %s (declared in the contract with its justification)", what, fr.fn.Name())
+				return
+			}
+		}
+	}
 	lv, ok := levels[key]
 	if !ok {
 		u.note("lock %s has no declared level: acquisition order not checked", what)
@@ -157,7 +168,14 @@ func (fr *frame) lockRank(key, what string, pos ssa.Instruction) {
 	var parts []string
 	for _, k := range ks {
 		u.regKey(k, "(Array Int Int)")
-		parts = append(parts, fmt.Sprintf("(forall ((r Int)) (= (select %s r) 0))", fr.st.get(u, k)))
+		cond := "true"
+		for _, f := range sortedKeys(u.freshRefs) {
+			cond += " (not (= r " + f + "))"
+		}
+		if u.eng.CS.LongTerm[k] && u.entryState != nil {
+			cond += " (= (select " + u.entryState.get(u, k) + " r) 0)"
+		}
+		parts = append(parts, fmt.Sprintf("(forall ((r Int)) (=> (and %s) (= (select %s r) 0)))", cond, fr.st.get(u, k)))
 	}
 	goal := "(and true " + strings.Join(parts, " ") + ")"
 	var names []string
@@ -175,7 +193,7 @@ func (e *specEnv) heldTerm(fun string, x Expr) string {
 	if !ok {
 		sfail("%s(): cannot name the lock location", fun)
 	}
-	if e.entryHeld != nil {
+	if e.entryHeld != nil && fun != "unheld" {
 		e.entryHeld[key] = append(e.entryHeld[key], ref)
 	}
 	cur := fmt.Sprintf("(select %s %s)", e.st.get(u, key), ref)
@@ -236,4 +254,30 @@ func (e *specEnv) lvalue(x Expr) *Ptr {
 	}
 	sfail("expression does not denote a location")
 	return nil
+}
+
+// lockRankLevel: obligation at a call to a function declared `locks N` (it may block on locks of level >= N)
+func (fr *frame) lockRankLevel(lv int, what string, pos ssa.Instruction) {
+	u := fr.u
+	levels := u.eng.CS.LockLevels
+	var ks []string
+	for k, l := range levels {
+		if l >= lv {
+			ks = append(ks, k)
+		}
+	}
+	sort.Strings(ks)
+	var parts []string
+	for _, k := range ks {
+		u.regKey(k, "(Array Int Int)")
+		cond := "true"
+		for _, f := range sortedKeys(u.freshRefs) {
+			cond += " (not (= r " + f + "))"
+		}
+		if u.eng.CS.LongTerm[k] && u.entryState != nil {
+			cond += " (= (select " + u.entryState.get(u, k) + " r) 0)"
+		}
+		parts = append(parts, fmt.Sprintf("(forall ((r Int)) (=> (and %s) (= (select %s r) 0)))", cond, fr.st.get(u, k)))
+	}
+	fr.u.addObl("lockrank", fmt.Sprintf("call to %s, which may block on locks of level >= %d: no such lock is held", what, lv), fr.pos(pos.Pos()), fr.cur, "(and true "+strings.Join(parts, " ")+")")
 }
